@@ -26,7 +26,7 @@ CFG = dict(
     min_counts={"any": {"clean_up_with_lines_still_queued": 20, "noalloc_line_truncated": 100, "direct_line_truncated": 100,
                         "level_changed_at_barrier": 50, "foreground_channel": 30, "clean_up_with_more_than_64_lines_queued": 20, "writer_reported_errors": 50,
                         "subject_name_of_79_to_300_characters": 100,
-                        "noalloc_logger_stream_refused_a_write": 100}},
+                        "noalloc_logger_stream_refused_a_write": 100, "message_that_cannot_be_formatted": 50}},
 )
 
 META = dict(
